@@ -235,12 +235,14 @@ func c08Run(t *testing.T, sc Scenario, res *Result) {
 			failDen = 0
 		}
 		m := genMachine(r, failDen)
+		certainlyStuck := false
 		if sc.Family == "stuck" {
 			// no action can run: from the start, or once the counter passes a bound
 			bound := int64(-1)
 			if r.chance(1, 2) {
 				bound = int64(r.between(1, 12))
 			}
+			certainlyStuck = bound < 0 // no action can ever run: every invocation must end in the 'no valid action' failure
 			byInvalidDraw := r.chance(1, 2) // the action gives up inside its first draw instead of calling Skip
 			for i := range m.Acts {
 				first := Step{Op: "skipif", Pred: Pred{Typ: "ctr", K: bound}}
@@ -325,6 +327,11 @@ func c08Run(t *testing.T, sc Scenario, res *Result) {
 						stuckSeen = true
 					}
 				}
+			}
+			if certainlyStuck && (rp.Kind != "failed" || rp.M != noValidActionsMsg) {
+				res.violate(sc, "c08/stuck-not-reported", "a machine none of whose actions can ever run did not end in the 'no valid action' failure: "+clip(rp.Kind+" "+rp.Raw, 200),
+					map[string]any{"program": p.Desc, "tb": tb.brief(), "trace_of_first_case": clipList(lg.Invs[0].Trace, 30)})
+				return
 			}
 			if !stuckSeen {
 				res.inc("stuck_machine_not_reached")
